@@ -13,12 +13,10 @@ def optU64 : Option (BitVec 64) → String
 /-- ton.GetParents restricted to the shard ids it returns: convertShardIdent, then shardParent (after split) or the
 two shardChild values (after merge). `pfxBits` is a tlb.Uint6 field (0..63). -/
 def parents (pfxBits : Nat) (pfx : BitVec 64) (split merge : Bool) : Option (List (BitVec 64)) :=
-  match convertShardIdent pfx pfxBits with
-  | none => none
-  | some s =>
-    if !merge then
-      if split then some [shardParent s] else some [s]
-    else some [shardChild s true, shardChild s false]
+  let s := convertShardIdent pfx (BitVec.ofNat 8 pfxBits)
+  if !merge then
+    if split then some [shardParent s] else some [s]
+  else some [shardChild s true, shardChild s false]
 
 def opsC17 : List (String × Handler) := [
   ("shard.parents", fun
